@@ -252,12 +252,12 @@ fn s_at(b: &[u8], o: usize) -> Option<Scalar> {
 pub fn state_message(b: &[u8]) -> Option<Vec<Scalar>> {
     let mut cidb = [0u8; 32];
     cidb.copy_from_slice(&b[0..32]);
-    let cid: ChannelId = wire::de(&cidb).ok()?;
     let nonce = s_at(b, 32)?;
     let lock = s_at(b, 64)?;
     let mb = u64::from_le_bytes({ let mut a = [0u8; 8]; a.copy_from_slice(&b[129..137]); a });
     let cb = u64::from_le_bytes({ let mut a = [0u8; 8]; a.copy_from_slice(&b[137..145]); a });
-    Some(vec![zkabacus_crypto::verif_hooks::channel_id_to_scalar(cid), nonce, lock, Scalar::from(cb), Scalar::from(mb)])
+    // the channel id's scalar evaluated independently of the code under test
+    Some(vec![cid_scalar(&cidb), nonce, lock, Scalar::from(cb), Scalar::from(mb)])
 }
 
 /// `Requested::new` for the given (possibly "hidden") values; the customer's proof is compared atom
@@ -369,6 +369,17 @@ pub fn initialize_check(ctx: &mut Ctx, w: &World, a: &Agreed, d: &EstD, expect: 
     let _ = verif_hooks::drain_challenges();
     let out = w.merchant.initialize(&mut rng, &a.cid, cbal, mbal, proof, &a.context());
     let rec = verif_hooks::drain_challenges();
+    if rec.is_empty() && out.is_none() {
+        // refused before any challenge was derived
+        ctx.count(&format!("initialize:{}:refused-without-deriving-a-challenge", what));
+        if expect == Some(true) {
+            ctx.violation(
+                &format!("initialize returned None on {} (without even deriving a challenge), expected Some", what),
+                json!({"class": what, "agreed": {"cid": hex_s(&a.cid_s), "cb": a.cb, "mb": a.mb, "context": hex::encode(&a.ctx_bytes)}, "proof_bytes": hex::encode(d.bytes(&book)), "pk": pk_args(&w.kpd.pk)}),
+            );
+        }
+        return None;
+    }
     if rec.len() != 1 {
         ctx.broken(&format!("initialize derived {} challenges, expected 1", rec.len()));
         return None;
